@@ -426,10 +426,9 @@ def _confirm(case, io):
             _CONFIRMED[key] = impl(case)
         except TimeoutError:
             _CONFIRMED[key] = io
-        except KeyError as e:
-            _CONFIRMED[key] = {"err": "key_error", "msg": str(e)}
         except Exception as e:  # noqa
-            _CONFIRMED[key] = {"err": "other:" + type(e).__name__, "msg": str(e)[:200]}
+            from checks.worker import classify as _classify
+            _CONFIRMED[key] = {"err": _classify(e), "msg": str(e)[:200]}
         finally:
             signal.setitimer(signal.ITIMER_REAL, 0)
             signal.signal(signal.SIGALRM, old)
